@@ -463,7 +463,15 @@ impl<'f, 't, 'w, W: Write> Formatter<'f, 't, 'w, W> {
                  to format Unix timestamp",
             )
         })?;
-        ext.write_int(b' ', None, timestamp.as_second(), self.wtr)
+        // The Unix timestamp is the number of whole seconds *before* the
+        // instant, i.e., rounded toward negative infinity. (`as_second`
+        // rounds toward zero, which is off by one for an instant before
+        // the Unix epoch with a non-zero fractional second.)
+        let mut second = timestamp.as_second();
+        if timestamp.subsec_nanosecond() < 0 {
+            second -= 1;
+        }
+        ext.write_int(b' ', None, second, self.wtr)
     }
 
     /// %f
